@@ -1,15 +1,33 @@
-From Coq Require Import NArith List Bool Lia.
-Import ListNotations. Open Scope N_scope.
+(* C07 — the lock protocol behind --resume, generically.
 
-(* Files are numbered; a state maps a file to its content (None = absent). Content 0 is "garbage / partial". *)
-Definition st := N -> option N.
-Definition write (s:st) (f c:N) : st := fun g => if g =? f then Some c else s g.
+   Files are drawn from any type F with a decidable equality; a state maps a file to its content (None = absent).
+   A *unit of work* is a list of truncating writes of its outputs with their intended contents followed by the creation of
+   its lock; on resume a unit is skipped iff its lock exists.  `lock_protocol_sound_any`: for any sequence of pairwise
+   distinct units with pairwise disjoint file sets and no stale lock, a crash inside any unit that leaves the outputs of
+   that unit in an ARBITRARY state (absent, half written, several of them open at once, complete) and everything else
+   untouched is repaired by re-interpreting the sequence with the guards: the result is pointwise the state of the
+   uninterrupted run.  `lock_protocol_sound` is the special case "j complete writes, the next one possibly garbage". *)
+From Coq Require Import List Bool Lia.
+Import ListNotations.
+
+Section Protocol.
+Variable F : Type.                       (* file names *)
+Variable feqb : F -> F -> bool.
+Hypothesis feqb_spec : forall a b, feqb a b = true <-> a = b.
+Variable C : Type.                       (* contents *)
+Variable lockc : C.                      (* what a lock file contains *)
+Variable garbagec : C.                   (* a half-written file *)
+
+Lemma feqb_refl a : feqb a a = true.
+Proof. apply feqb_spec; reflexivity. Qed.
+
+Definition st := F -> option C.
+Definition write (s:st) (f:F) (c:C) : st := fun g => if feqb g f then Some c else s g.
 Definition eqst (a b:st) := forall f, a f = b f.
 
-(* A unit of work: truncating writes of its outputs with their intended contents, then its lock (content 1). *)
-Record unit_ := { outs : list (N * N); lock : N }.
-Definition run_outs (s:st) (o:list (N*N)) : st := fold_left (fun s e => write s (fst e) (snd e)) o s.
-Definition run_unit (s:st) (u:unit_) : st := write (run_outs s (outs u)) (lock u) 1.
+Record unit_ := mkunit { outs : list (F * C); lock : F }.
+Definition run_outs (s:st) (o:list (F*C)) : st := fold_left (fun s e => write s (fst e) (snd e)) o s.
+Definition run_unit (s:st) (u:unit_) : st := write (run_outs s (outs u)) (lock u) lockc.
 (* on resume a unit is skipped iff its lock exists *)
 Definition resume_unit (s:st) (u:unit_) : st := match s (lock u) with Some _ => s | None => run_unit s u end.
 Definition run_all (s:st) (us:list unit_) : st := fold_left run_unit us s.
@@ -19,31 +37,33 @@ Definition resume_all (s:st) (us:list unit_) : st := fold_left resume_unit us s.
 Definition crash_in (s:st) (u:unit_) (j:nat) (garbage:bool) : st :=
   let s1 := run_outs s (firstn j (outs u)) in
   match garbage, nth_error (outs u) j with
-  | true, Some e => write s1 (fst e) 0
+  | true, Some e => write s1 (fst e) garbagec
   | _, _ => s1
   end.
+(* the general crash: c is any state that differs from s at most on the outputs of u (never on a lock) *)
+Definition crashed_inside (s:st) (u:unit_) (c:st) := forall g, ~ In g (map fst (outs u)) -> c g = s g.
 
-Definition files (u:unit_) : list N := lock u :: map fst (outs u).
+Definition files (u:unit_) : list F := lock u :: map fst (outs u).
 
 (* ---------- pointwise characterisation: the last write to a file wins ---------- *)
-Fixpoint last_write (g:N) (o:list (N*N)) : option N :=
-  match o with [] => None | e::t => match last_write g t with Some c => Some c | None => if g =? fst e then Some (snd e) else None end end.
+Fixpoint last_write (g:F) (o:list (F*C)) : option C :=
+  match o with [] => None | e::t => match last_write g t with Some c => Some c | None => if feqb g (fst e) then Some (snd e) else None end end.
 Lemma run_outs_char o : forall s g, run_outs s o g = match last_write g o with Some c => Some c | None => s g end.
 Proof. induction o as [|e t IH]; intros s g; [reflexivity|]. cbn [run_outs fold_left last_write]. fold (run_outs (write s (fst e) (snd e)) t).
-  rewrite IH. destruct (last_write g t); [reflexivity|]. unfold write. destruct (g =? fst e); reflexivity. Qed.
+  rewrite IH. destruct (last_write g t); [reflexivity|]. unfold write. destruct (feqb g (fst e)); reflexivity. Qed.
 Lemma last_write_none g o : ~ In g (map fst o) -> last_write g o = None.
-Proof. induction o as [|e t IH]; intros H; [reflexivity|]. cbn [last_write]. rewrite IH by (intros C; apply H; right; exact C).
-  destruct (g =? fst e) eqn:E; [apply N.eqb_eq in E; exfalso; apply H; left; symmetry; exact E|reflexivity]. Qed.
+Proof. induction o as [|e t IH]; intros H; [reflexivity|]. cbn [last_write]. rewrite IH by (intros X; apply H; right; exact X).
+  destruct (feqb g (fst e)) eqn:E; [apply feqb_spec in E; exfalso; apply H; left; symmetry; exact E|reflexivity]. Qed.
 Lemma last_write_some g o : In g (map fst o) -> last_write g o <> None.
 Proof. induction o as [|e t IH]; intros H; [destruct H|]. cbn [last_write]. destruct (last_write g t) eqn:E; [discriminate|].
-  destruct H as [H|H]; [|exfalso; exact (IH H eq_refl)]. simpl in H. subst g. rewrite N.eqb_refl. discriminate. Qed.
+  destruct H as [H|H]; [|exfalso; exact (IH H eq_refl)]. simpl in H. subst g. rewrite feqb_refl. discriminate. Qed.
 
-Definition intended (u:unit_) (g:N) : option N := if g =? lock u then Some 1 else last_write g (outs u).
+Definition intended (u:unit_) (g:F) : option C := if feqb g (lock u) then Some lockc else last_write g (outs u).
 Lemma run_unit_char s u g : run_unit s u g = match intended u g with Some c => Some c | None => s g end.
-Proof. unfold run_unit, intended, write. destruct (g =? lock u); [reflexivity|apply run_outs_char]. Qed.
+Proof. unfold run_unit, intended, write. destruct (feqb g (lock u)); [reflexivity|apply run_outs_char]. Qed.
 Lemma intended_none u g : ~ In g (files u) -> intended u g = None.
-Proof. intros H. unfold intended. destruct (g =? lock u) eqn:E; [apply N.eqb_eq in E; exfalso; apply H; left; symmetry; exact E|].
-  apply last_write_none. intros C; apply H; right; exact C. Qed.
+Proof. intros H. unfold intended. destruct (feqb g (lock u)) eqn:E; [apply feqb_spec in E; exfalso; apply H; left; symmetry; exact E|].
+  apply last_write_none. intros X; apply H; right; exact X. Qed.
 Lemma run_unit_cong s s' u : eqst s s' -> eqst (run_unit s u) (run_unit s' u).
 Proof. intros H g. rewrite !run_unit_char. destruct (intended u g); [reflexivity|apply H]. Qed.
 Lemma run_all_cong us : forall s s', eqst s s' -> eqst (run_all s us) (run_all s' us).
@@ -52,21 +72,21 @@ Lemma run_all_other us : forall s g, (forall u, In u us -> ~ In g (files u)) -> 
 Proof. induction us as [|u t IH]; intros s g H; [reflexivity|]. cbn [run_all fold_left]. fold (run_all (run_unit s u) t).
   rewrite IH by (intros v Hv; apply H; right; exact Hv). rewrite run_unit_char, intended_none; [reflexivity|apply H; left; reflexivity]. Qed.
 
-(* the crash touches only outputs of the interrupted unit, never a lock *)
-Lemma crash_other s u j gb g : ~ In g (map fst (outs u)) -> crash_in s u j gb g = s g.
-Proof. intros H. unfold crash_in.
+(* the special crash touches only outputs of the interrupted unit, never a lock *)
+Lemma crash_other s u j gb : crashed_inside s u (crash_in s u j gb).
+Proof. intros g H. unfold crash_in.
   assert (A: run_outs s (firstn j (outs u)) g = s g).
-  { rewrite run_outs_char, last_write_none; [reflexivity|]. intros C. apply H.
-    rewrite <- (firstn_skipn j (outs u)), map_app. apply in_or_app. left; exact C. }
+  { rewrite run_outs_char, last_write_none; [reflexivity|]. intros X. apply H.
+    rewrite <- (firstn_skipn j (outs u)), map_app. apply in_or_app. left; exact X. }
   destruct gb; [|exact A]. destruct (nth_error (outs u) j) as [e|] eqn:E; [|exact A].
-  unfold write. destruct (g =? fst e) eqn:E2; [|exact A]. apply N.eqb_eq in E2. exfalso. apply H. subst g.
+  unfold write. destruct (feqb g (fst e)) eqn:E2; [|exact A]. apply feqb_spec in E2. exfalso. apply H. subst g.
   apply in_map. eapply nth_error_In; eauto. Qed.
 
 (* restarting the interrupted unit from the crash state gives exactly what the uninterrupted unit gives *)
-Lemma rerun_after_crash s u j gb : eqst (run_unit (crash_in s u j gb) u) (run_unit s u).
-Proof. intros g. rewrite !run_unit_char. destruct (intended u g) eqn:E; [reflexivity|].
-  apply crash_other. intros C. unfold intended in E. destruct (g =? lock u); [discriminate|].
-  exact (last_write_some g (outs u) C E). Qed.
+Lemma rerun_after_crash s u c : crashed_inside s u c -> eqst (run_unit c u) (run_unit s u).
+Proof. intros HC g. rewrite !run_unit_char. destruct (intended u g) eqn:E; [reflexivity|].
+  apply HC. intros X. unfold intended in E. destruct (feqb g (lock u)); [discriminate|].
+  exact (last_write_some g (outs u) X E). Qed.
 
 (* ---------- the protocol theorem ---------- *)
 Definition disjoint_units (us:list unit_) := forall u v g, In u us -> In v us -> u <> v -> In g (files u) -> In g (files v) -> False.
@@ -84,56 +104,78 @@ Proof. induction post as [|u t IH]; intros s s' H ND DJ HL; [exact H|].
   inversion ND; subst. apply IH; [apply run_unit_cong, H|assumption| |].
   - intros a b g Ha Hb. apply DJ; right; assumption.
   - intros v Hv. rewrite run_unit_char, intended_none; [apply HL; right; exact Hv|].
-    intros C. apply (DJ v u (lock v)); [right; exact Hv|left; reflexivity|intros ->; contradiction|left; reflexivity|exact C]. Qed.
+    intros X. apply (DJ v u (lock v)); [right; exact Hv|left; reflexivity|intros ->; contradiction|left; reflexivity|exact X]. Qed.
 
-Lemma lock_written : forall pre s0 v, In v pre -> NoDup pre -> disjoint_units pre -> run_all s0 pre (lock v) = Some 1.
+Lemma lock_written : forall pre s0 v, In v pre -> NoDup pre -> disjoint_units pre -> run_all s0 pre (lock v) = Some lockc.
 Proof. induction pre as [|w t IH]; intros s0 v Hv ND DJ; [destruct Hv|].
   cbn [run_all fold_left]. fold (run_all (run_unit s0 w) t). inversion ND; subst.
   destruct Hv as [->|Hv].
-  - rewrite run_all_other; [rewrite run_unit_char; unfold intended; rewrite N.eqb_refl; reflexivity|].
-    intros x Hx C. apply (DJ v x (lock v)); [left; reflexivity|right; exact Hx|intros ->; contradiction|left; reflexivity|exact C].
-  - apply IH; [exact Hv|exact H2|]. intros a b g Ha Hb. apply DJ; right; assumption. Qed.
+  - rewrite run_all_other; [rewrite run_unit_char; unfold intended; rewrite feqb_refl; reflexivity|].
+    intros x Hx X. apply (DJ v x (lock v)); [left; reflexivity|right; exact Hx|intros ->; contradiction|left; reflexivity|exact X].
+  - apply IH; [exact Hv|assumption|]. intros a b g Ha Hb. apply DJ; right; assumption. Qed.
 
 Lemma NoDup_app_inv {A} (l l':list A) : NoDup (l ++ l') -> NoDup l /\ NoDup l' /\ (forall x, In x l -> ~ In x l').
 Proof. induction l as [|a t IH]; intros H; [split; [constructor|split; [exact H|intros x []]]|].
   simpl in H. inversion H; subst. destruct (IH H3) as (I1 & I2 & I3). split; [|split; [exact I2|]].
-  - constructor; [intros C; apply H2; apply in_or_app; left; exact C|exact I1].
-  - intros x [->|Hx]; [intros C; apply H2; apply in_or_app; right; exact C|apply I3, Hx]. Qed.
+  - constructor; [intros X; apply H2; apply in_or_app; left; exact X|exact I1].
+  - intros x [->|Hx]; [intros X; apply H2; apply in_or_app; right; exact X|apply I3, Hx]. Qed.
 
-Theorem lock_protocol_sound : forall pre u post s0 j gb,
+Theorem lock_protocol_sound_any : forall pre u post s0 c,
   NoDup (pre ++ u :: post) -> disjoint_units (pre ++ u :: post) -> lock_apart u ->
   (forall v, In v (pre ++ u :: post) -> s0 (lock v) = None) ->
-  eqst (resume_all (crash_in (run_all s0 pre) u j gb) (pre ++ u :: post)) (run_all s0 (pre ++ u :: post)).
-Proof. intros pre u post s0 j gb ND DJ LA HL.
+  crashed_inside (run_all s0 pre) u c ->
+  eqst (resume_all c (pre ++ u :: post)) (run_all s0 (pre ++ u :: post)).
+Proof. intros pre u post s0 c ND DJ LA HL HC.
   assert (Hu: In u (pre ++ u :: post)) by (apply in_or_app; right; left; reflexivity).
-  assert (Hnotpre: ~ In u pre) by (intros C; apply NoDup_remove_2 in ND; apply ND; apply in_or_app; left; exact C).
-  assert (Hnotpost: ~ In u post) by (intros C; apply NoDup_remove_2 in ND; apply ND; apply in_or_app; right; exact C).
+  assert (Hnotpre: ~ In u pre) by (intros X; apply NoDup_remove_2 in ND; apply ND; apply in_or_app; left; exact X).
+  assert (Hnotpost: ~ In u post) by (intros X; apply NoDup_remove_2 in ND; apply ND; apply in_or_app; right; exact X).
   destruct (NoDup_app_inv pre (u :: post) ND) as (NDpre & NDupost & Hsep).
   assert (NDpost: NoDup post) by (inversion NDupost; assumption).
   assert (DJpre: disjoint_units pre) by (intros a b g Ha Hb; apply DJ; apply in_or_app; left; assumption).
   assert (DJpost: disjoint_units post) by (intros a b g Ha Hb; apply DJ; apply in_or_app; right; right; assumption).
   unfold resume_all, run_all. rewrite !fold_left_app. cbn [fold_left].
-  fold (run_all s0 pre). set (s1 := run_all s0 pre). set (c := crash_in s1 u j gb).
-  fold (resume_all c pre). 
+  fold (run_all s0 pre). fold (run_all s0 pre) in HC. set (s1 := run_all s0 pre) in *.
+  fold (resume_all c pre).
   (* 1. completed units are skipped *)
   assert (Hpre: resume_all c pre = c).
-  { apply resume_skips_done. intros v Hv. exists 1. unfold c. rewrite crash_other.
+  { apply resume_skips_done. intros v Hv. exists lockc. rewrite HC.
     - apply lock_written; assumption.
-    - intros C. apply (DJ v u (lock v)); [apply in_or_app; left; exact Hv|exact Hu|intros ->; contradiction|left; reflexivity|right; exact C]. }
+    - intros X. apply (DJ v u (lock v)); [apply in_or_app; left; exact Hv|exact Hu|intros ->; contradiction|left; reflexivity|right; exact X]. }
   rewrite Hpre. fold (resume_all (resume_unit c u) post). fold (run_all (run_unit s1 u) post).
   (* 2. the interrupted unit has no lock, so it is re-run from scratch *)
   assert (Hlock: c (lock u) = None).
-  { unfold c. rewrite crash_other by exact LA. unfold s1. rewrite run_all_other; [apply HL, Hu|].
-    intros v Hv C. apply (DJ u v (lock u)); [exact Hu|apply in_or_app; left; exact Hv|intros ->; contradiction|left; reflexivity|exact C]. }
+  { rewrite HC by exact LA. unfold s1. rewrite run_all_other; [apply HL, Hu|].
+    intros v Hv X. apply (DJ u v (lock u)); [exact Hu|apply in_or_app; left; exact Hv|intros ->; contradiction|left; reflexivity|exact X]. }
   unfold resume_unit at 1. rewrite Hlock.
   (* 3. later units were never started: their locks are absent, they run on an equal state *)
-  apply resume_runs_missing; [apply rerun_after_crash|exact NDpost|exact DJpost|].
+  apply resume_runs_missing; [apply rerun_after_crash, HC|exact NDpost|exact DJpost|].
   intros v Hv. rewrite run_unit_char, intended_none.
-  - unfold c. rewrite crash_other.
+  - rewrite HC.
     + unfold s1. rewrite run_all_other; [apply HL; apply in_or_app; right; right; exact Hv|].
-      intros x Hx C. apply (DJ v x (lock v)); [apply in_or_app; right; right; exact Hv|apply in_or_app; left; exact Hx| |left; reflexivity|exact C].
+      intros x Hx X. apply (DJ v x (lock v)); [apply in_or_app; right; right; exact Hv|apply in_or_app; left; exact Hx| |left; reflexivity|exact X].
       intros ->. apply (Hsep x Hx). right; exact Hv.
-    + intros C. apply (DJ v u (lock v)); [apply in_or_app; right; right; exact Hv|exact Hu|intros ->; contradiction|left; reflexivity|right; exact C].
-  - intros C. apply (DJ v u (lock v)); [apply in_or_app; right; right; exact Hv|exact Hu|intros ->; contradiction|left; reflexivity|exact C].
+    + intros X. apply (DJ v u (lock v)); [apply in_or_app; right; right; exact Hv|exact Hu|intros ->; contradiction|left; reflexivity|right; exact X].
+  - intros X. apply (DJ v u (lock v)); [apply in_or_app; right; right; exact Hv|exact Hu|intros ->; contradiction|left; reflexivity|exact X].
 Qed.
-Print Assumptions lock_protocol_sound.
+
+Theorem lock_protocol_sound : forall pre u post s0 j gb,
+  NoDup (pre ++ u :: post) -> disjoint_units (pre ++ u :: post) -> lock_apart u ->
+  (forall v, In v (pre ++ u :: post) -> s0 (lock v) = None) ->
+  eqst (resume_all (crash_in (run_all s0 pre) u j gb) (pre ++ u :: post)) (run_all s0 (pre ++ u :: post)).
+Proof. intros. apply lock_protocol_sound_any; try assumption. apply crash_other. Qed.
+
+(* a crash between two units (nothing half done) is the case "inside the next unit, before its first write" *)
+Corollary lock_protocol_sound_between : forall pre u post s0,
+  NoDup (pre ++ u :: post) -> disjoint_units (pre ++ u :: post) -> lock_apart u ->
+  (forall v, In v (pre ++ u :: post) -> s0 (lock v) = None) ->
+  eqst (resume_all (run_all s0 pre) (pre ++ u :: post)) (run_all s0 (pre ++ u :: post)).
+Proof. intros. apply lock_protocol_sound_any; try assumption. intros g _. reflexivity. Qed.
+
+(* The hypothesis "the lock is written last" is necessary: if the lock exists while an output of the unit is not what the
+   uninterrupted run writes, the resumed run keeps the wrong file for ever. *)
+Lemma lock_first_not_repaired : forall u (s:st) x, s (lock u) = Some x -> eqst (resume_all s [u]) s.
+Proof. intros u s x H f. cbn. unfold resume_unit. rewrite H. reflexivity. Qed.
+
+End Protocol.
+
+Arguments mkunit {F C}. Arguments outs {F C}. Arguments lock {F C}.
